@@ -951,6 +951,48 @@ func (g *G) c13Loaders(d *c13CDoc, syntaxOverride string) []*c13Loader {
 				return spec, nil
 			}})
 	}
+	// a compilation that fails at one pattern (its text is broken), the pattern is corrected in the same Spec value, and
+	// the specification is compiled again: the patterns that were fine are what they were given as, parsed once
+	{
+		spec := d.goSpec(js, g.c13TextPat(false, true))
+		ls = append(ls, &c13Loader{name: "go-text-broken-pattern-first", force: true, ints: std,
+			load: func() (*core.Spec, error) { return d.goSpec(js, g.c13TextPat(false, true)), nil },
+			compile: func() (*core.Spec, error) {
+				if spec.Nodes == nil {
+					if err := spec.Compile(context.Background(), std, true); err != nil {
+						return nil, err
+					}
+					return spec, nil
+				}
+				// the broken pattern sits in the branch that comes last in every order: a node added for it, named to sort last
+				spec.Nodes["zzz-added"] = &core.Node{Branches: &core.Branches{Type: "message", Branches: []*core.Branch{{Pattern: `{"broken`, Target: "zzz-added"}}}}
+				for name, n := range spec.Nodes {
+					if n != nil && n.Branches != nil && name != "zzz-added" {
+						// ... and also as the last branch of an existing node, after that node's own patterns
+						n.Branches.Branches = append(n.Branches.Branches, &core.Branch{Pattern: `["broken"`, Target: name})
+						break
+					}
+				}
+				if err := spec.Compile(context.Background(), std, true); err == nil {
+					return nil, fmt.Errorf("a specification with a broken pattern text compiled")
+				}
+				delete(spec.Nodes, "zzz-added")
+				for _, n := range spec.Nodes {
+					if n != nil && n.Branches != nil {
+						bs := n.Branches.Branches
+						if k := len(bs); k > 0 && bs[k-1] != nil {
+							if t, is := bs[k-1].Pattern.(string); is && t == `["broken"` {
+								n.Branches.Branches = bs[:k-1]
+							}
+						}
+					}
+				}
+				if err := spec.Compile(context.Background(), std, true); err != nil {
+					return nil, err
+				}
+				return spec, nil
+			}})
+	}
 	// hosts that know no interpreter, or only another one: compiled last, after the same sources compiled fine above
 	// (an unknown interpreter is rejected whatever was compiled before)
 	ls = append(ls,
